@@ -43,6 +43,11 @@ func OracleFor(cfg *Cfg, tokens []Tok) []OrcEntry {
 			add(FromAtoms(v))
 		}
 	}
+	for _, st := range cfg.Sets {
+		for _, v := range st.Vals {
+			add(FromAtoms(v))
+		}
+	}
 	for _, e := range cfg.Env {
 		add(FromAtoms(e.Val))
 		add(strings.ToLower(FromAtoms(e.Val)))
